@@ -49,6 +49,12 @@ def run(prog, rep):
                                 % (kind, ', '.join('sec %d..%d ns %d..%d' % (c[0][0], c[0][1], c[1][0], c[1][1]) for c, _ in lst[:4]), label, lst[0][1]),
                                 {'cells': [str(c) for c, _ in lst], 'emitted': str(lst[0][1])}, func=f.id, count=len(lst))
                 check_timestamp96_order(rep, kind, f, per)
+                native = sorted(set(str(a[1]) for seqs in per.values() for s_ in seqs for a in s_ if a[0] == 'EMITRAW' and str(a[1]).startswith('native:')))
+                if native:
+                    rep.finding('R6.4', '%s|%s(%s)' % (kind, name, pt), f.loc(),
+                                '%s writer %s(%s) appends a multi-byte scalar in native byte order' % (kind, name, pt), {'emitted': str(native)}, func=f.id)
+                else:
+                    rep.ok('R6.4', '%s|%s(%s)|timestamp cells' % (kind, name, pt))
                 continue
             for cell, seqs in sorted(per.items()):
                 site = '%s|%s(%s)|%s' % (kind, name, pt, cell_str(cell))
